@@ -79,6 +79,7 @@ type c09Stats struct {
 	Errors           int  // requests answered with status >= 400
 	Faults           int  // responses lost or cut by the fault layer
 	Watchdog         bool // MaxRequests was exceeded
+	UploadSessions   int  // upload-pack exchanges started (requests naming wants)
 }
 
 type c09UpSession struct {
@@ -269,6 +270,9 @@ func (s *c09Server) uploadPack(rw *httptest.ResponseRecorder, r *http.Request) {
 	if c, err := r.Cookie(api.CookieUploadPackSession); err == nil {
 		sid = c.Value
 		ses = s.up[sid]
+	}
+	if len(req.Wants) > 0 {
+		s.Stats.UploadSessions++
 	}
 	if ses != nil && len(req.Wants) > 0 {
 		// wants come with the first request of a session only: a client that names wants again (fetch.Fetch
